@@ -149,7 +149,7 @@ def _conv(kind, a):
 
 
 ASIGS = {
-    'new': ['dnn'], 'declare': ['lint'], 'var': ['int'], 'true': [], 'false': [],
+    'new': ['dnn'], 'declare': ['lint'], 'add_var': ['int', 'oint'], 'var': ['int'], 'true': [], 'false': [],
     'apply': ['str', 'int', 'oint', 'oint'], 'ite': ['int', 'int', 'int'],
     'let_bool': ['dnb', 'int'], 'let_ref': ['dnn', 'int'], 'let_name': ['dnn', 'int'],
     'quantify': ['int', 'lint', 'bool'], 'cube': ['dnb'],
